@@ -35,6 +35,18 @@ CHECKS = {
          'stateless schedule exploration of real threads under a baton scheduler, iterative pre-emption bounding, on the real library',
          'Every schedule with at most the stated number of pre-emptions of each harness (writers x readers x one packer; scheduling points at each visible file-system call / SQL statement) is executed; acknowledged-object visibility and byte equality are checked per reader call and on the final state.',
          'Threads stand in for processes; at most 3 actors; pre-emption bound 1-2 (quick) / 2-3 (thorough); SQLite-internal steps are atomic.', '5 C04, 3 E2'),
+ 'C08': ('seqx', 'model_checking',
+         'explicit-state BFS over sequential multi-handle histories; canonical state includes each handle\'s pinned index snapshot; queries are judged transitions',
+         'All histories up to the depth bound over 2 (quick) / 3 (thorough) handles on one folder: adds through any handle, every query kind through any handle as the first query in each state, pack/clean through the packing handle; every query must report all acknowledged objects with the right bytes/sizes.',
+         'Depth-bounded; 2-content universe; count_objects not judged (not in the statement).', '5 C08, 3 E1'),
+ 'C09': ('seqx', 'model_checking',
+         'explicit-state BFS over write/pack/clean/import histories with recurring contents + hole/count monitors; second exhaustive pass without state merging',
+         'Histories in which contents recur in every position (within a batch, across batches and forms, incl. the empty object) x compress/no_holes/read_twice, with damage events followed by a re-add; hole and object-count monitors on every transition; a no-merge pass guards against state the canonical form cannot see.',
+         'Depth/deviation bounded; damage events are always followed by a re-add of the damaged content.', '5 C09, 3 E1'),
+ 'C13': ('seqx', 'model_checking',
+         'explicit-state BFS over histories without repack through two handles; before/after comparison of every pack file and index row on every transition',
+         'Every transition of the bounded history space (small and default pack_size_target) is checked for: referenced bytes unchanged, no shrinking below the last referenced byte, closed packs byte-identical, consecutive numbering, every non-final pack full.',
+         'Depth/deviation bounded; 4-content universe.', '5 C13, 3 E1'),
 }
 
 NOT_YET = {
